@@ -1,11 +1,188 @@
 import Driver.Util
-/- line-protocol commands of the Session family (stub: filled in by the family's build) -/
+import AsyncFix.Model.Session
+
+/-!
+Line-protocol commands of the Session family (`sess.*`).
+
+Tokens
+* message  `<mtype>,<tag>:<value>,<tag>:<value>…`   (`<mtype>`, `<value>` are `x<hex>` UTF-8 tokens)
+* conn     `<state> <role> <wasActive> <sender> <target> <nextIn> <nextOut> <maxResend> <testReqId|none>
+            <lastTime ms> <hb> <sock> <storedOut> <storedIn> <nOut> {<seq> <msg>}* <nIn> {<seq> <msg>}*`
+* sr       `all` | `none` | `d<seq>,<seq>…` (should_replay declines exactly these MsgSeqNums)
+* event    `recv <now> <stamp> <msg>` | `send <now> <stamp> <msg>` | `testreq <now> <stamp>` |
+           `disc <now> <stamp> <dstate> <none|reason>` | `tick <now> <stamp>` | `eof <now> <stamp>` |
+           `conn init|fail|acc` | `reset`
+
+Commands
+* `sess.step <sr> <conn> E <event>`   stateless single step
+* `sess.load <conn>`                  store a connection            → `ok`
+* `sess.ev <sr> <event>`              step the stored connection
+* `sess.feed <sr> <now> <stamp> <n> <msg>*`  inner read loop over n frames on the stored connection
+* `sess.pyint <x…>`                   `pyInt` of a string           → integer | `none`
+Reply of a step: `<effects joined by ;  (or -)> # <conn>`; `feed` appends ` # <frames left>`.
+-/
 namespace Driver.Session
 
+open AsyncFix.Session
+
 structure St where
-  unit : Unit := ()
+  conn : Option Conn := none
+
+def parseMsg (t : String) : Option Msg :=
+  match t.splitOn "," with
+  | [] => none
+  | ty :: fields => do
+    let mtype ← tokStr ty
+    let fs ← fields.mapM fun f =>
+      match f.splitOn ":" with
+      | [a, b] => do
+        let tag ← a.toNat?
+        let v ← tokStr b
+        pure (tag, v)
+      | _ => none
+    pure { mtype := mtype, tags := fs }
+
+def showMsg (m : Msg) : String :=
+  String.intercalate "," (strTok m.mtype :: m.tags.map fun p => toString p.1 ++ ":" ++ strTok p.2)
+
+def parseBool (t : String) : Option Bool :=
+  if t == "1" then some true else if t == "0" then some false else none
+
+/-- `n` rows `<seq> <msg>`; returns the rows (inserted in order, duplicates refused) and the rest -/
+def parseRows : Nat → List String → Rows → Option (Rows × List String)
+  | 0, rest, acc => some (acc, rest)
+  | n + 1, s :: m :: rest, acc => do
+    let seq ← tokInt s
+    let msg ← parseMsg m
+    let acc' ← Rows.insert seq msg acc
+    parseRows n rest acc'
+  | _, _, _ => none
+
+def parseConn (ts : List String) : Option (Conn × List String) :=
+  match ts with
+  | st :: role :: wa :: snd :: tgt :: nin :: nout :: mr :: tr :: lt :: hb :: sock :: jo :: ji :: no :: rest => do
+    let st ← st.toNat?
+    let role ← role.toNat?
+    let wa ← parseBool wa
+    let snd ← tokStr snd
+    let tgt ← tokStr tgt
+    let nin ← tokInt nin
+    let nout ← tokInt nout
+    let mr ← tokInt mr
+    let tr ← if tr == "none" then some none else (tokInt tr).map some
+    let lt ← tokInt lt
+    let hb ← tokInt hb
+    let sock ← parseBool sock
+    let jo ← tokInt jo
+    let ji ← tokInt ji
+    let no ← no.toNat?
+    let (outRows, rest) ← parseRows no rest []
+    match rest with
+    | ni :: rest => do
+      let ni ← ni.toNat?
+      let (inRows, rest) ← parseRows ni rest []
+      pure ({ state := st, role := role, wasActive := wa,
+              sess := { sender := snd, target := tgt, nextIn := nin, nextOut := nout },
+              maxResend := mr, testReqId := tr, lastTime := lt, hb := hb, sock := sock,
+              journal := { out := outRows, inb := inRows, outSeq := jo, inSeq := ji } }, rest)
+    | [] => none
+  | _ => none
+
+def showRows (rs : Rows) : List String :=
+  toString rs.length :: rs.flatMap fun p => [toString p.1, showMsg p.2]
+
+def showConn (c : Conn) : String :=
+  String.intercalate " " <|
+    [toString c.state, toString c.role, if c.wasActive then "1" else "0",
+     strTok c.sess.sender, strTok c.sess.target, toString c.sess.nextIn, toString c.sess.nextOut,
+     toString c.maxResend, match c.testReqId with | none => "none" | some n => toString n,
+     toString c.lastTime, toString c.hb, if c.sock then "1" else "0",
+     toString c.journal.outSeq, toString c.journal.inSeq]
+    ++ showRows c.journal.out ++ showRows c.journal.inb
+
+def showEffect : Effect → String
+  | .write f => "W=" ++ showMsg f
+  | .deliver m => "D=" ++ showMsg m
+  | .onLogon h => "L=" ++ (if h then "1" else "0")
+  | .onLogout m => "LO=" ++ showMsg m
+  | .onDisconnect => "DC"
+  | .onState s => "S=" ++ toString s
+  | .onConnect => "CN"
+  | .closeSocket => "CS"
+  | .caught k => "C=" ++ k.name
+  | .raised k => "R=" ++ k.name
+
+def showEffects (es : List Effect) : String :=
+  if es.isEmpty then "-" else String.intercalate ";" (es.map showEffect)
+
+def parseSr (t : String) : Option (Msg → Bool) :=
+  if t == "all" then some fun _ => true
+  else if t == "none" then some fun _ => false
+  else match t.toList with
+    | 'd' :: r => do
+      let ns ← ((String.ofList r).splitOn ",").mapM tokInt
+      pure fun m => match (m.get? tMsgSeqNum).bind pyInt with
+        | some n => !ns.contains n
+        | none => true
+    | _ => none
+
+def parseEnv (now stamp : String) : Option Env := do
+  let n ← tokInt now
+  let s ← tokStr stamp
+  pure { now := n, stamp := s }
+
+def parseEvent : List String → Option Event
+  | ["recv", now, stamp, m] => do pure (.recv (← parseEnv now stamp) (← parseMsg m))
+  | ["send", now, stamp, m] => do pure (.appSend (← parseEnv now stamp) (← parseMsg m))
+  | ["testreq", now, stamp] => do pure (.appTestReq (← parseEnv now stamp))
+  | ["disc", now, stamp, d, l] => do
+    let env ← parseEnv now stamp
+    let d ← d.toNat?
+    let l ← if l == "none" then some none else (tokStr l).map some
+    pure (.appDisconnect env d l)
+  | ["tick", now, stamp] => do pure (.tick (← parseEnv now stamp))
+  | ["eof", now, stamp] => do pure (.eof (← parseEnv now stamp))
+  | ["conn", "init"] => some (.connected .initiator)
+  | ["conn", "fail"] => some (.connected .initiatorFailed)
+  | ["conn", "acc"] => some (.connected .acceptor)
+  | ["reset"] => some .resetSeq
+  | _ => none
+
+def stepReply (sr : Msg → Bool) (c : Conn) (ev : Event) : Conn × String :=
+  let (c', es) := step sr c ev
+  (c', showEffects es ++ " # " ++ showConn c')
 
 def handle (st : St) (cmd : String) (args : List String) : St × String :=
-  (st, "bad-op")
+  match cmd, args with
+  | "step", srT :: rest =>
+    match parseSr srT, parseConn rest with
+    | some sr, some (c, "E" :: evT) =>
+      match parseEvent evT with
+      | some ev => (st, (stepReply sr c ev).2)
+      | none => (st, "bad-op")
+    | _, _ => (st, "bad-op")
+  | "load", rest =>
+    match parseConn rest with
+    | some (c, []) => ({ st with conn := some c }, "ok")
+    | _ => (st, "bad-op")
+  | "ev", srT :: evT =>
+    match st.conn, parseSr srT, parseEvent evT with
+    | some c, some sr, some ev =>
+      let (c', r) := stepReply sr c ev
+      ({ st with conn := some c' }, r)
+    | _, _, _ => (st, "bad-op")
+  | "feed", srT :: now :: stamp :: n :: ms =>
+    match st.conn, parseSr srT, parseEnv now stamp, n.toNat?, ms.mapM parseMsg with
+    | some c, some sr, some env, some n, some msgs =>
+      if msgs.length != n then (st, "bad-op")
+      else
+        let (c', es, rest) := feed sr env c msgs
+        ({ st with conn := some c' }, showEffects es ++ " # " ++ showConn c' ++ " # " ++ toString rest.length)
+    | _, _, _, _, _ => (st, "bad-op")
+  | "pyint", [t] =>
+    match tokStr t with
+    | some s => (st, match pyInt s with | some n => toString n | none => "none")
+    | none => (st, "bad-op")
+  | _, _ => (st, "bad-op")
 
 end Driver.Session
